@@ -107,7 +107,7 @@ Example history_runs : exists st outs,
   run true [OSend OwUser [65;66;67]; OSend OwUser [68]; OSched [WK 1; WAgain]; OIter; OQlen; ODrop Youngest; OIter]
       (init true) = Ok (st, outs) /\
   outs = [OutNone; OutNone; OutNone; OutIter [65] false; OutLen 1; OutDrop (Some [68]); OutIter [] false].
-Proof. eexists. eexists. split; vm_compute; reflexivity. Qed.
+Proof. exact history_runs_ex. Qed.
 
 (* The code as found (without fixes/C06-1.patch: the new head keeps a [prev] pointer to the element that just left
    the queue) violates the linkage invariant.  [user U; lib S1; lib S2], U completely written and freed, S1 refused
@@ -115,7 +115,7 @@ Proof. eexists. eexists. split; vm_compute; reflexivity. Qed.
 Theorem unfixed_code_refuted :
   run false [OSend OwUser [65]; OSend OwSmLib [66]; OSend OwSmLib [67]; OSched [WAll; WAgain]; OIter; ODrop Youngest]
       (init false) = UAF.
-Proof. vm_compute. reflexivity. Qed.
+Proof. exact unfixed_uaf. Qed.
 Print Assumptions unfixed_code_refuted.
 
 (* ... and, with stream management, U is not freed but parked in the SM queue: the same walk finds it there and
@@ -124,5 +124,5 @@ Print Assumptions unfixed_code_refuted.
 Theorem unfixed_code_drops_sent_element : exists st,
   run false [OSend OwUser [65]; OSend OwSmLib [67]; OSched [WAll; WAgain]; OIter; ODrop Youngest; OQlen] (init true)
   = Ok (st, [OutNone; OutNone; OutNone; OutIter [65] false; OutDrop (Some [65]); OutLen (-1)]).
-Proof. eexists. vm_compute. reflexivity. Qed.
+Proof. exact unfixed_drops_sent. Qed.
 Print Assumptions unfixed_code_drops_sent_element.
